@@ -10,10 +10,12 @@ place=$(head -1 $d/demo_test.go | sed -n 's/.*place in: *\([^ ]*\).*/\1/p'); [ -
 git apply $d/patch.diff || { echo "RESULT patch does not apply"; exit 1; }
 go build ./... || { echo "RESULT does not build"; exit 1; }
 suite=fail
-for a in 1 2 3; do
+for a in 1 2 3 4 5; do
   out=$(go test -vet=off -count=1 -timeout 200s ./... 2>&1)
   if echo "$out" | grep -q "^FAIL\|^--- FAIL\|panic:"; then
-     if echo "$out" | grep -q "rescheduleDrainBuffers"; then continue; fi
+     # pre-existing flaky hangs (measured on the original commit too): retry
+     if echo "$out" | grep -q "test timed out" && echo "$out" | grep -q "rescheduleDrainBuffers (\|TestSaveLoadCache/ok ("; then continue; fi
+     if echo "$out" | grep -q -- "--- FAIL: TestCache_Eviction/evict_wtinylfu" && [ $(echo "$out" | grep -c -- "^    --- FAIL\|^--- FAIL") -le 2 ]; then continue; fi
      echo "$out" | grep "FAIL\|panic" | head -5; break
   else suite=pass; break; fi
 done
